@@ -38,6 +38,7 @@ type (
 	TransportError                  = quic.TransportError
 	IdleTimeoutError                = quic.IdleTimeoutError
 	HandshakeTimeoutError           = quic.HandshakeTimeoutError
+	StatelessResetError             = quic.StatelessResetError // named by code under test since the seeded change C16-12
 	StreamError                     = quic.StreamError
 	StreamLimitReachedError         = quic.StreamLimitReachedError
 	DatagramTooLargeError           = quic.DatagramTooLargeError
